@@ -413,7 +413,9 @@ def rule_helpers(rep: Report, repo: Repo, sections=None, nonhermitian: bool = Tr
         dense = [s_ for s_ in fd.body if isinstance(s_, ast.If) and norm(s_.test) in ("isinstance(A, np.ndarray)",)]
         if len(dense) != 1:
             raise AnalysisError(R, "is_diagonal: dense branch not found")
-        txt = " ".join(norm(x_) for x_ in dense[0].body)
+        rets_d = [x_ for x_ in ast.walk(dense[0]) if isinstance(x_, ast.Return) and x_.value is not None]
+        # locals (hoisted sizes, the view of the off-diagonal entries) are read through
+        txt = " ".join(norm(resolved(x_.value, env_at(x_, fd))) for x_ in rets_d) or " ".join(norm(x_) for x_ in dense[0].body)
         one_triangle = any(t_ in txt for t_ in ("np.triu_indices_from(", "np.tril_indices_from(", "np.triu_indices(", "np.tril_indices(", "np.triu(", "np.tril("))
         both = ("np.triu" in txt and "np.tril" in txt)
         if "A.reshape(-1)[:-1].reshape(len(A) - 1, len(A) + 1)[:, 1:]" in txt or "np.diag(np.diag(A))" in txt or "~np.eye(" in txt or both:
